@@ -130,6 +130,32 @@ def extract(tree):
     _need(r"if\s*\(\s*!neg\s*\)\s*\{\s*\*out\s*=\s*bi\s*;\s*return\s+1\s*;\s*\}", sq, "janet_scan_uint64: sign test")
     c["u64Max"] = 2**64 - 1
     c["i64Max"] = 2**63 - 1
+    # --- C types of the BigNat intermediates (widths used by the C-typed model Strtod/ModelW.lean, whose wrap-freedom
+    #     is proved in Strtod/WrapFree.lean): declarations are read, not assumed
+    def width(t, what):
+        w = {"uint64_t": 64, "uint32_t": 32, "uint16_t": 16, "uint8_t": 8}.get(t)
+        if w is None:
+            raise ExtractError("strtod.c: %s has type %r, expected a fixed-width unsigned type" % (what, t))
+        return w
+    sb = _need(r"struct\s+BigNat\s*\{(.*?)\}\s*;", src, "struct BigNat")
+    m1 = _need(r"(\w+)\s+first_digit\s*;", sb.group(1), "BigNat.first_digit")
+    m2 = _need(r"(\w+)\s*\*\s*digits\s*;", sb.group(1), "BigNat.digits")
+    if m1.group(1) != m2.group(1):
+        raise ExtractError("strtod.c: first_digit and digits[] have different types")
+    c["digitBits"] = width(m1.group(1), "BigNat digit")
+    m = _need(r"static\s+void\s+bignat_muladd\s*\(\s*struct\s+BigNat\s*\*\s*mant\s*,\s*(\w+)\s+factor\s*,\s*(\w+)\s+term\s*\)", src, "bignat_muladd signature")
+    md = _need(r"static\s+void\s+bignat_div\s*\(\s*struct\s+BigNat\s*\*\s*mant\s*,\s*(\w+)\s+divisor\s*\)", src, "bignat_div signature")
+    if not (m.group(1) == m.group(2) == md.group(1)):
+        raise ExtractError("strtod.c: factor / term / divisor parameter types differ")
+    c["factorBits"] = width(m.group(1), "factor/term/divisor parameter")
+    c["carryBits"] = width(_need(r"(\w+)\s+carry\s*=", mul, "bignat_muladd: carry declaration").group(1), "carry")
+    mq = _need(r"(\w+)\s+quotient\s*,\s*remainder\s*;", div, "bignat_div: quotient, remainder declaration")
+    c["quotBits"] = width(mq.group(1), "quotient/remainder")
+    _need(r"quotient\s*=\s*\(%s\)\s*\(dividend" % mq.group(1), div, "bignat_div: cast of the quotient matches its type")
+    c["dividendBits"] = width(_need(r"(\w+)\s+dividend\s*;", div, "bignat_div: dividend declaration").group(1), "dividend")
+    c["top53Bits"] = width(_need(r"(\w+)\s+top53\s*;", ex, "bignat_extract: top53 declaration").group(1), "top53")
+    sa = csrc.func_body(src, "bignat_append")
+    _need(r"bignat_extra\s*\(\s*mant\s*,\s*1\s*\)\s*\[\s*0\s*\]\s*=\s*dig\s*;", sa, "bignat_append")
     # --- printing
     dt = csrc.func_body(src, "janet_buffer_dtostr")
     m = _need(r'snprintf\s*\(\s*\(char\s*\*\)\s*buffer->data\s*\+\s*buffer->count\s*,\s*BUFSIZE\s*,\s*"%\.(\d+)g"\s*,\s*x\s*\)', dt, "janet_buffer_dtostr: format")
@@ -172,6 +198,7 @@ def render(tree):
     out.append("abbrev digitLookup : Array Nat := #[" + ", ".join(str(v) for v in tab) + "]\n")
     for k in ("nbit", "bigBase", "window", "mantBits", "mantMax", "approxPerDigit", "approxBias", "shamtBase", "shamtDiv",
               "lenLimit", "eeLimit", "eeSat", "intLenLimit", "u64Max", "i64Max", "printDigits",
+              "digitBits", "factorBits", "carryBits", "quotBits", "dividendBits", "top53Bits",
               "intMaxDouble", "intMinDoubleAbs", "fixedPrec", "dblDig"):
         out.append("abbrev %s : Nat := %d" % (k, c[k]))
     for k in ("hugeThresh", "tinyThresh"):
